@@ -97,6 +97,11 @@ def point_scenarios(tier):
     add("collapse_inner_get_qend", t2, ["g%d" % K(0, 1, 1), "g%d" % K(0, 1, 2)], ["r1", "i1"], q="end")
     add("i4_full_grow_rem_qend", rng(4), ["i5", "g1"], ["r1", "r2"], q="end")
     add("leaf_ins_rem_ins_qend", [5], ["r5", "i5", "g5"], ["i5", "r5"], q="end")
+    # --- epoch choreography: a writer that quiesced early retires a node in a later epoch and
+    # exits with the request pending while a reader still looks at that node
+    add("exit_with_pending_request", [1, 2, 3], ["g1", "g2", "g3"], ["g1", "r3"])
+    add("exit_with_pending_request_inode", [1, K(0, 1, 1), K(0, 1, 2)], ["g1", "g1", "g%d" % K(0, 1, 1)], ["g1", "r1"])
+    add("exit_with_pending_requests2", [1, 2, 3, 4], ["g1", "g2", "g4", "g3"], ["g1", "r3", "r4"])
     # --- three threads
     add("three_threads_root", [1, 2], ["r1"], ["r2"], ["i3"])
     add("three_threads_collapse", t2, ["g%d" % K(0, 1, 1)], ["r1"], ["i%d" % K(0, 1, 3)])
